@@ -26,7 +26,7 @@ type C06Reg struct {
 }
 
 type C06Step struct {
-	Kind    string `json:"kind"` // pub, sleep, wait, shutdown
+	Kind    string `json:"kind"` // pub, pubc (a publish whose context a task of its own cancels 0-12 steps later), sleep, wait, shutdown
 	Ms      int    `json:"ms,omitempty"`
 	CtxKind int    `json:"ctx,omitempty"` // shutdown: 0 background, 1 deadline after Ms, 2 already cancelled
 }
@@ -61,9 +61,9 @@ func genC06(rt *rapid.T) core.Scenario {
 		sc.Regs = append(sc.Regs, r)
 	}
 	step := func(l string, waiter bool) C06Step {
-		kinds := []string{"pub", "pub", "sleep"}
+		kinds := []string{"pub", "pub", "pubc", "sleep"}
 		if waiter {
-			kinds = []string{"pub", "pub", "sleep", "wait", "shutdown", "shutdown"}
+			kinds = []string{"pub", "pub", "pubc", "sleep", "wait", "shutdown", "shutdown"}
 		}
 		s := C06Step{Kind: rapid.SampledFrom(kinds).Draw(rt, l+"Kind")}
 		switch s.Kind {
@@ -150,6 +150,7 @@ func (sc *C06Scenario) Execute(t *testing.T) *core.Outcome {
 	var allEvents []int // every event id published, with its type side
 	side := map[int]int{}
 	nextID := 0
+	cancellable := map[int]bool{} // top-level events published with a context that gets cancelled
 	bothReady := 0
 	body := func() {
 		var opts []eventbus.Option
@@ -201,13 +202,30 @@ func (sc *C06Scenario) Execute(t *testing.T) *core.Outcome {
 		runSteps := func(steps []C06Step) {
 			for _, s := range steps {
 				switch s.Kind {
-				case "pub":
+				case "pub", "pubc":
 					nextID++
 					id := nextID
 					side[id] = 0
-					allEvents = append(allEvents, id)
+					ctx := context.Background()
+					if s.Kind == "pubc" {
+						// deliveries of this event are indeterminate (at most once each); every invocation that does
+						// happen is asynchronous work like any other, and the bus's accounting must survive the
+						// cancellation landing anywhere in the dispatch loop
+						cancellable[id] = true
+						c, cancel := context.WithCancel(ctx)
+						ctx = c
+						delay := (id * 5) % 13
+						simrt.GoNamed(fmt.Sprintf("cancel%d", id), func() {
+							for i := 0; i < delay; i++ {
+								simrt.Yield(siteHandler)
+							}
+							cancel()
+						})
+					} else {
+						allEvents = append(allEvents, id)
+					}
 					w.Rec.Add("pub-call", id, 0, "")
-					allTypes[sc.TypeA].Pub(w, context.Background(), id)
+					allTypes[sc.TypeA].Pub(w, ctx, id)
 					pubRet[id] = w.Rec.Add("pub-ret", id, 0, "")
 				case "sleep":
 					simrt.Sleep(time.Duration(s.Ms) * time.Millisecond)
@@ -279,8 +297,16 @@ func (sc *C06Scenario) Execute(t *testing.T) *core.Outcome {
 				want = append(want, id)
 			}
 		}
+		seenC := map[int]int{}
 		for _, iv := range invs {
 			if iv.Reg == ri {
+				if cancellable[iv.Ev] {
+					seenC[iv.Ev]++
+					if seenC[iv.Ev] > 1 {
+						out.V("async-delivery", "registration %d received the (cancelled) event %d %d times", ri, iv.Ev, seenC[iv.Ev])
+					}
+					continue
+				}
 				got = append(got, iv.Ev)
 			}
 		}
